@@ -11,7 +11,9 @@ from numbers_parser.cell import (_format_base, _format_currency, _format_decimal
 from numbers_parser.constants import DECIMAL_PLACES_AUTO
 from numbers_parser.currencies import CURRENCY_SYMBOLS
 
-from pysym.api import BoolDom, Cases, DecFloatDom, Harness, IntDom, assume, concretize, cover, nondet_int, nondet_str
+from sigfig import round as REAL_SIGFIG
+
+from pysym.api import BoolDom, Cases, DecFloatDom, Harness, IntDom, assume, concretize, cover, is_symbolic, nondet_int, nondet_str
 
 
 class Rec:
@@ -155,6 +157,135 @@ def h13_currency(vclass, negative_style, thousands, places, accounting, known, n
         assert minus == 0 and paren == 0
     else:
         assert minus == 0 and paren == 2
+
+
+# ------------------------------------------------------------------------------------------------ decimal: numeric
+REG = []            # strings handed out by the numeric sigfig contract, with what they denote
+
+
+class Shown:
+    """a decimal string the rounding step returned: sign, digit list, number of digits before the point"""
+
+    def __init__(self, neg, digits, p):
+        self.neg, self.digits, self.p = neg, digits, p
+        ip = digits[:p] if p > 0 else [0]
+        fp = ([0] * (-p) if p < 0 else []) + digits[max(p, 0):]
+        text = "".join([chr(48 + d) for d in ip])
+        if fp:
+            text += "." + "".join([chr(48 + d) for d in fp])
+        self.text = ("-" if neg else "") + text
+        self.nfrac = len(fp)
+        REG.append(self)
+
+
+def lookup(text):
+    for e in REG:
+        if e.text is text:
+            return e
+    assert False
+
+
+def numeric_sigfig(x, *args, **kw):
+    """contract of sigfig.round as _format_decimal uses it (compared with the real sigfig on every native replay):
+    (float, 15, type=str)      -> the value in positional notation with exactly 15 significant digits
+    (float, 15)                -> the value itself (<= 15 significant digits)
+    (str, decimals=k, type=str)-> that decimal rounded half away from zero to k decimals
+    (str, spacer=',', spacing=3, type=str) -> digits grouped by three on both sides of the point"""
+    res = _numeric_sigfig(x, args, kw)
+    if not is_symbolic(x) and not is_symbolic(res) and not is_symbolic(kw.get("decimals")):
+        real = REAL_SIGFIG(x, *args, **kw)
+        assert (real == res) if isinstance(res, str) else (float(real) == float(res))
+    return res
+
+
+def _numeric_sigfig(x, args, kw):
+    if not isinstance(x, str):
+        if kw.get("type") is not str:
+            return x
+        tup = Decimal(repr(abs(x))).as_tuple()
+        digits = list(tup.digits)
+        n = len(digits)
+        p = n + tup.exponent                       # digits before the decimal point (may be <= 0 or > 15)
+        digits15 = digits + [0] * (15 - n)
+        if p > 15:
+            digits15 = digits15 + [0] * (p - 15)
+        return Shown(x < 0, digits15, p).text
+    if kw.get("spacer") is not None:
+        parts = x.split(".")
+        neg = parts[0].startswith("-")
+        body = parts[0][1:] if neg else parts[0]
+        zero = True
+        for ch in x:
+            if "1" <= ch <= "9":
+                zero = False
+        if zero:
+            return ("-" if neg else "") + "0"          # observed sigfig behaviour: a zero loses its decimals here
+        res = group3(body)
+        if len(parts) > 1:
+            res = res + "." + group3(parts[1], True)
+        return ("-" if neg else "") + res
+    e = lookup(x)
+    k = concretize(kw["decimals"])
+    digits, p = e.digits, e.p
+    size = len(digits)
+    keep = p + k                                   # value * 10^k = 0.d1 d2 ... x 10^keep
+    if keep >= size:
+        N = 0
+        for d in digits:
+            N = N * 10 + d
+        N = N * 10 ** (keep - size)
+    elif keep < 0:
+        N = 0
+    else:
+        N = 0
+        for d in digits[:keep]:
+            N = N * 10 + d
+        if digits[keep] >= 5:                      # half away from zero (the digits after it only add to it)
+            N = N + 1
+    ds = [ord(c) - 48 for c in str(N)]
+    if len(ds) < k + 1:
+        ds = [0] * (k + 1 - len(ds)) + ds
+    neg = e.neg if N != 0 else False               # a negative value that rounds to zero is shown without a sign
+    return Shown(neg, ds, len(ds) - k).text
+
+
+def h13_decimal_num(x, negative_style, thousands, places, percent):
+    """_format_decimal: the number displayed, read back, is the value rounded to the decimals shown (either neighbour on
+    a tie); the number of decimals is the number asked for"""
+    del REG[:]
+    assume(0 <= negative_style <= 3)
+    fmt = Rec(negative_style=negative_style, show_thousands_separator=thousands, decimal_places=places)
+    out = _format_decimal(x, fmt, percent)
+    text = strip(out)
+    assert len(text) >= 1
+    parts = text.split(".")
+    assert 1 <= len(parts) <= 2
+    ip = parts[0]
+    fp = parts[1] if len(parts) == 2 else ""
+    assert len(ip) >= 1
+    if places != DECIMAL_PLACES_AUTO:
+        assert len(fp) == places
+    shown = int(ip + fp) if ip + fp != "" else 0          # shown * 10^-len(fp)
+    tup = Decimal(repr(abs(x))).as_tuple()
+    D = 0
+    for d in tup.digits:
+        D = D * 10 + d
+    a = -len(fp)
+    b = tup.exponent
+    lo = min(a, b)
+    left = shown * 10 ** (a - lo)
+    right = D * 10 ** (b - lo)
+    unit = 10 ** (a - lo)
+    if places == DECIMAL_PLACES_AUTO:
+        assert left == right                        # automatic: nothing is rounded away (<= 15 significant digits)
+    else:
+        assert -unit <= 2 * (left - right) <= unit
+    # sign
+    neg = x < 0
+    if neg and negative_style == 0 and shown != 0:
+        assert out.startswith("-")
+    if not neg:
+        assert "-" not in out and "(" not in out
 
 
 # ------------------------------------------------------------------------------------------------ number bases
@@ -411,6 +542,24 @@ HARNESSES += [
 ]
 
 
+def _decnum(n, e):
+    return Harness(f"H13-decimal-num-n{n}-e{e}", h13_decimal_num,
+                   lambda tier: dict(x=DecFloatDom(n, e), negative_style=IntDom(), thousands=BoolDom(),
+                                     places=Cases([DECIMAL_PLACES_AUTO, 0, 2] if tier == "quick" else [DECIMAL_PLACES_AUTO, 0, 1, 2, 3, 6]),
+                                     percent=Cases([False, True])),
+                   bounds=f"every float whose shortest decimal form has {n} significant digits (symbolic) at decimal exponent {e}, both signs; "
+                          "4 negative styles; separator on/off; decimals {auto,0,2} (quick) / {auto,0,1,2,3,6} (thorough); percent suffix on/off",
+                   stubs=["sigfig.round replaced by its numeric contract on decimal digit vectors (15 significant digits in positional "
+                          "notation; rounding half away from zero to k decimals; grouping by three) - the contract is compared with the "
+                          "real sigfig on every native replay", "repr(float) / Decimal: shortest round-trip digits (contract)"],
+                   patches=[(cellmod, "sigfig", numeric_sigfig)])
+
+
+DECNUM_Q = [(n, e) for n in (1, 3, 5) for e in (-3, -1, 0, 2, 4)]
+DECNUM_T = [(n, e) for n in (1, 2, 3, 5, 9, 15) for e in (-7, -3, -2, -1, 0, 1, 2, 3, 4, 6, 14)]
+HARNESSES += [_decnum(n, e) for n, e in DECNUM_T]
+
+
 def _sci(n, e):
     return Harness(f"H13-sci-n{n}-e{e}", h13_sci, lambda tier: dict(x=DecFloatDom(n, e), places=Cases([0, 1, 2, 5, 14] if tier == "quick" else list(range(0, 15)))),
                    bounds=f"every float whose shortest decimal form has {n} significant digits (symbolic) at decimal exponent {e}, both "
@@ -425,6 +574,8 @@ SCI_Q = [(n, e) for n in (1, 2, 3, 7, 15) for e in (-290, -5, -1, 0, 1, 9, 15, 1
 SCI_T = [(n, e) for n in range(1, 16) for e in (-290, -100, -20, -5, -4, -1, 0, 1, 2, 9, 14, 15, 16, 17, 100, 289)]
 HARNESSES += [_sci(n, e) for n, e in SCI_T]
 _NEW = ["H13-base", "H13-base-round", "H13-twos", "H13-fraction", "H13-fraction-n"]
-TIER_HARNESSES = {"quick": ["H13-decimal", "H13-currency"] + _NEW + [f"H13-sci-n{n}-e{e}" for n, e in SCI_Q],
-                  "thorough": ["H13-decimal", "H13-currency"] + _NEW + [f"H13-sci-n{n}-e{e}" for n, e in SCI_T]}
+TIER_HARNESSES = {"quick": ["H13-decimal", "H13-currency"] + _NEW + [f"H13-sci-n{n}-e{e}" for n, e in SCI_Q] +
+                           [f"H13-decimal-num-n{n}-e{e}" for n, e in DECNUM_Q],
+                  "thorough": ["H13-decimal", "H13-currency"] + _NEW + [f"H13-sci-n{n}-e{e}" for n, e in SCI_T] +
+                              [f"H13-decimal-num-n{n}-e{e}" for n, e in DECNUM_T]}
 PROPERTY = "C13"
